@@ -751,6 +751,9 @@ func (f *Frame) applyContract(con *Contract, key string, sig *types.Signature, a
 		env2.names["caller"] = f.vals[f.fn.Params[0]]
 	}
 	for _, e := range con.Ensures {
+		if e.BodyOnly {
+			continue
+		}
 		// a clause that cannot be evaluated at a call site (it mentions the callee's locals) is simply not assumed
 		var soft []string
 		vc.softErr = &soft
